@@ -96,6 +96,13 @@ def jobs(tier, seed):
             for v in (0, 2):
                 J.append({"id": f"C14/P/client._try_eliminate_sub_underflow[{kx},{ky};v{v}]", "fn": "vverif.contracts.venom_kernels:job_client",
                           "args": ("sub_underflow", kx, ky, v), "functions": VK.FUNCS_CLIENTS, "engine": "PyVC"})
+    # printer / parser round trip and well-formedness on the template family (bounded stand-in; equivalence of differently
+    # compiled parsed IR is proved on the bytecode)
+    groups = [["arith.uint8.add", "cmp.int256.lt", "if.else"], ["for.range", "for.break", "storage.rw"], ["internal.memarg", "internal.tuple", "storage.struct"],
+              ["echo.bytes", "dispatch.six", "extcall.view"], ["event.static", "sarray.index", "storage.map"]]
+    for cfg in (("V-O2", "V-none") if tier == "quick" else ("V-O2", "V-none", "V-O3", "V-Os")):
+        for g in groups:
+            J.append({"id": f"C14/B/venom-ir-text-and-wellformedness[{g[0]}..;{cfg}]", "fn": "vverif.contracts.venom_kernels:job_ir_roundtrip", "args": (g, cfg), "functions": VK.FUNCS_IRTEXT, "engine": "bounded"})
     return J
 
 
@@ -117,5 +124,7 @@ def evidence_meta(tier):
     return {
         "trusted_base": ["vverif/spec_evm.py (EVM word operations from the Yellow Paper)"],
         "assumptions": ["A1 spec library correct", "A2 solvers sound", "A5 CPython semantics of modelled builtins", "A9 termination not proved"],
+        "bounded_note": "printer/parser round trip and find_semantic_errors before and after the pass pipeline on 15 templates x Venom levels (run-time contract evaluation; "
+                        "when the parsed IR compiles to different bytes their observational equivalence is proved on the bytecode)",
         "explanation": "PyVC obligations on the range analysis kernels; see DESIGN.md 3/C14",
     }
